@@ -102,9 +102,13 @@ def build_coq(clean=False, target=None):
 def property_files(prop):
     """Properties/<prop>.v and its continuation files Properties/<prop><Suffix>.v (suffix starts with a letter or _)."""
     d = os.path.join(COQ, "theories", "Properties")
+    try:
+        off = {os.path.basename(l.strip()) for l in open(os.path.join(COQ, "disabled.txt")) if l.strip() and not l.startswith("#")}
+    except OSError:
+        off = set()
     fs = []
     for f in sorted(os.listdir(d)) if os.path.isdir(d) else []:
-        if re.match(r'^%s([A-Za-z_][A-Za-z0-9_]*)?\.v$' % re.escape(prop), f):
+        if f not in off and re.match(r'^%s([A-Za-z_][A-Za-z0-9_]*)?\.v$' % re.escape(prop), f):
             fs.append(os.path.join(d, f))
     return fs
 
